@@ -15,6 +15,9 @@ var regTypes = map[string]reflect.Type{
 	"regstruct":   reflect.TypeOf(RegStruct{}),
 	"regstringer": reflect.TypeOf(RegStringer("")),
 	"regslice":    reflect.TypeOf(RegSlice(nil)),
+	// builtin types can be registered as well (named like their leaf kinds)
+	"str": reflect.TypeOf(""),
+	"int": reflect.TypeOf(0),
 }
 
 var regKindsAll = []string{"regstr", "regint", "regstruct", "regstringer", "regslice"}
